@@ -231,6 +231,13 @@ def check_doo(ctx):
         cand_w = [w for w in wl if norm_src(w.test) in ("%s <= %s" % (hv, D), "%s >= %s" % (D, hv)) and any(f.inner is x for x in ast.walk(w))]
         if len(cand_w) == 1:
             depth_loop, form = cand_w[0], "A"
+        else:
+            # (C) the same cycle entered at the check: h = 0; while True: if h > D: expand; h = 0 / <cells of layer h> / h += 1
+            # (the check is vacuous on entry since 0 <= D; afterwards it is form A's cycle cells -> increment -> check)
+            cand_w = [w for w in wl if isinstance(w.test, ast.Constant) and w.test.value is True and any(f.inner is x for x in w.body) or
+                      (isinstance(w.test, ast.Constant) and w.test.value is True and any(any(f.inner is y for y in ast.walk(x)) for x in w.body))]
+            if len(cand_w) == 1:
+                depth_loop, form = cand_w[0], "C"
     okw = depth_loop is not None and any(depth_loop is x for x in ast.walk(f.loop)) and not (sw and sw["partial"] and form == "B" and
                                                                                               any("break" in x for x in sw["partial"]))
     ctx.ob("R08-EXPAND", okw, c.file, q, "the maximum runs over the leaves of every depth",
@@ -241,7 +248,7 @@ def check_doo(ctx):
         at = g.node_of(sites[0])
         aa = atoms_at(g, at)
         st = model.enclosing_stmt(sites[0])
-        if form == "A":
+        if form in ("A", "C"):
             hv = sw["layers"][1].id
             blk = enclosing_block(model, st)
             after = [norm_src(s) for s in blk[blk.index(st) + 1:]]
@@ -249,6 +256,29 @@ def check_doo(ctx):
                            norm_src(s.targets[0] if isinstance(s, ast.Assign) else s.target) == hv)
             oks = ("<", D, hv) in aa and after == ["%s = 0" % hv] and hdefs == ["%s += 1" % hv, "%s = 0" % hv, "%s = 0" % hv]
             why = "guards %s; then %s; counter definitions %s" % (aa, after, hdefs)
+            # order of the cycle inside the loop body: cells -> increment -> check (A), or the rotation that starts at the check (C)
+            wb = depth_loop.body
+            pos = {}
+            for k2, b in enumerate(wb):
+                if any(f.inner is x for x in ast.walk(b)):
+                    pos["cells"] = k2
+                if norm_src(b) == "%s += 1" % hv:
+                    pos["inc"] = k2
+                if any(st is x for x in ast.walk(b)):
+                    pos["check"] = k2
+            if len(pos) == 3:
+                order = sorted(pos, key=pos.get)
+                oks = oks and order == (["cells", "inc", "check"] if form == "A" else ["check", "cells", "inc"])
+                # the check statement holds nothing but the expansion and the reset
+                chk = wb[pos["check"]]
+                oks = oks and isinstance(chk, ast.If) and not chk.orelse and [norm_src(x) for x in chk.body[1:]] == ["%s = 0" % hv] and len(chk.body) == 2
+                why += "; cycle order %s" % order
+            else:
+                oks = False
+                why += "; the sweep cycle (cells, increment, check) is not found at the top level of the loop"
+            # the counter starts at 0 before the loop
+            init = [b for b in enclosing_block(model, depth_loop)[:enclosing_block(model, depth_loop).index(depth_loop)] if norm_src(b) == "%s = 0" % hv]
+            oks = oks and len(init) == 1
         else:
             head = g.node_of(depth_loop)
             inside = any(st is x for x in ast.walk(depth_loop))
@@ -378,6 +408,108 @@ def ref_fold(loop):
                 sel=best, seedvars=[best] + ([idx] if idx else []))
 
 
+def none_seeded_fold(loop):
+    """The max-b selection of StoSOO, whatever it is called and however the current cell is designated:
+         for <j | j, cell | cell> in <range(len(L)) | enumerate(L) | L>:
+             [cell = L[j]]
+             if <cell> is a leaf:
+                 <pre>
+                 if best is None or key(<incumbent>) <= key(<cell>):     (either orientation; `if .. elif ..` with the same body
+                     best = <j | cell>  [; other = <cell | j>]              is merged by the normaliser)
+       <incumbent> is L[best] for an index fold and best for a reference fold; <cell> is any designator of the current cell.
+       Returns the same record as index_fold / ref_fold or None."""
+    it, tg = loop.iter, loop.target
+    j = None
+    names = set()
+    if isinstance(tg, ast.Name) and isinstance(it, ast.Call) and norm_src(it.func) == "range" and len(it.args) == 1 and \
+            isinstance(it.args[0], ast.Call) and norm_src(it.args[0].func) == "len" and len(it.args[0].args) == 1:
+        layer = norm_src(it.args[0].args[0])
+        j = tg.id
+        names = {"%s[%s]" % (layer, j)}
+    elif isinstance(tg, ast.Tuple) and len(tg.elts) == 2 and isinstance(it, ast.Call) and norm_src(it.func) == "enumerate" and len(it.args) == 1:
+        layer = norm_src(it.args[0])
+        j = norm_src(tg.elts[0])
+        names = {norm_src(tg.elts[1]), "%s[%s]" % (layer, j)}
+    elif isinstance(tg, ast.Name) and not (isinstance(it, ast.Call) and norm_src(it.func) in ("range", "enumerate", "zip")):
+        layer = norm_src(it)
+        names = {tg.id}
+    else:
+        return None
+    body = list(loop.body)
+    while body and isinstance(body[0], ast.Assign) and len(body[0].targets) == 1 and isinstance(body[0].targets[0], ast.Name) and norm_src(body[0].value) in names:
+        names.add(body[0].targets[0].id)
+        body = body[1:]
+    if len(body) != 1 or not isinstance(body[0], ast.If) or body[0].orelse:
+        return None
+    I = body[0]
+    if not any(norm_src(I.test) == "%s.get_children() is None" % d for d in names):
+        return None
+    pre = [x for x in I.body if not isinstance(x, ast.If)]
+    sel = [x for x in I.body if isinstance(x, ast.If)]
+    if len(sel) != 1 or sel[0].orelse or I.body[-1] is not sel[0]:
+        return None
+    S = sel[0]
+    t = S.test
+    if not (isinstance(t, ast.BoolOp) and isinstance(t.op, ast.Or) and len(t.values) == 2):
+        return None
+    none_t, cmp_t = t.values
+    if not (isinstance(none_t, ast.Compare) and len(none_t.ops) == 1 and isinstance(none_t.ops[0], ast.Is) and norm_src(none_t.comparators[0]) == "None" and
+            isinstance(cmp_t, ast.Compare) and len(cmp_t.ops) == 1):
+        return None
+    best = norm_src(none_t.left)
+    assigns = {}
+    for x in S.body:
+        if not (isinstance(x, ast.Assign) and len(x.targets) == 1):
+            return None
+        assigns[norm_src(x.targets[0])] = norm_src(x.value)
+    if best not in assigns:
+        return None
+    if j is not None and assigns[best] == j:
+        kind, inc = "index", "%s[%s]" % (layer, best)
+    elif assigns[best] in names:
+        kind, inc = "ref", best
+    else:
+        return None
+    others = {k2: v for k2, v in assigns.items() if k2 != best}
+    idx = best if kind == "index" else None
+    ref = best if kind == "ref" else None
+    for k2, v in others.items():
+        if kind == "ref" and j is not None and v == j and idx is None:
+            idx = k2
+        elif kind == "index" and v in names and ref is None:
+            ref = k2
+        else:
+            return None
+    incs = {inc} | ({ref} if ref else set()) | ({"%s[%s]" % (layer, idx)} if idx else set())
+    l, r = norm_src(cmp_t.left), norm_src(cmp_t.comparators[0])
+    op = type(cmp_t.ops[0])
+    getter = direction = None
+    for a, b, flip in ((l, r, False), (r, l, True)):
+        for ia in incs:
+            for nb in names:
+                if a.startswith(ia + ".") and b.startswith(nb + ".") and a[len(ia):] == b[len(nb):]:
+                    getter = a[len(ia) + 1:]
+                    o = op if not flip else {ast.LtE: ast.GtE, ast.Lt: ast.Gt, ast.GtE: ast.LtE, ast.Gt: ast.Lt}.get(op)
+                    direction = "max" if o in (ast.LtE, ast.Lt) else ("min" if o in (ast.GtE, ast.Gt) else None)
+    if getter is None or direction is None:
+        return None
+    # pre statements with the cell's designators abstracted
+    pre_src = []
+    for x in pre:
+        sx = norm_src(x)
+        for d in sorted(names, key=len, reverse=True):
+            if sx.startswith(d + "."):
+                sx = "CELL" + sx[len(d):]
+                break
+        pre_src.append(sx)
+    node = sorted(names, key=len)[0]
+    rec = dict(idx=idx, j=j, layer=layer, node=node, getter=getter, direction=direction, pre=pre_src, loop=loop, cell_names=names,
+               seedvars=[v for v in (ref, idx) if v])
+    if kind == "ref" or ref:
+        rec["sel"] = ref
+    return rec
+
+
 def check_stosoo(ctx):
     model = ctx.model
     c = model.cls("StoSOO")
@@ -386,14 +518,14 @@ def check_stosoo(ctx):
     ctx.fn(q)
     g = C.CFG(pull)
     loops = [l for l in ast.walk(pull) if isinstance(l, ast.For)]
-    rec = [index_fold(l) or ref_fold(l) for l in loops]
+    rec = [none_seeded_fold(l) or index_fold(l) or ref_fold(l) for l in loops]
     rec = [r for r in rec if r]
     if len(rec) != 1:
         ctx.violation("R08-EXPAND", c.file, q, "choice of the max-b leaf", "not recognised as the index arg-max of b over the leaves of the depth", pull.lineno)
         return
     r = rec[0]
     okf = r["direction"] == "max" and r["getter"] == "get_b_value()" and r["layer"] == "node_list[h]" and \
-        r["pre"] == ["%s.compute_b_value(n=self.n, k=self.k, delta=self.delta)" % r["node"]]
+        r["pre"] in (["%s.compute_b_value(n=self.n, k=self.k, delta=self.delta)" % r["node"]], ["CELL.compute_b_value(n=self.n, k=self.k, delta=self.delta)"])
     ctx.ob("R08-EXPAND", okf, c.file, q, "max-b leaf of depth h, b recomputed for every leaf with (n, k, delta)", "%s" % {k: v for k, v in r.items() if k != "loop"},
            r["loop"].lineno)
     sel = r.get("sel") or "%s[%s]" % (r["layer"], r["idx"])
